@@ -1,19 +1,17 @@
--- GENERATED by /verif/translate/c05.py: UNSUPPORTED source shape
+-- GENERATED from src/mxlpy/label_map.py by /verif/translate/c05.py; do not edit (rewritten on every run)
 namespace Mxl.C05.Gen
-/- LabelMapper.get_isotopomers_of_at_position: body has none of the modelled shapes:
-if isinstance(positions, int):
-    positions = [positions]
-num_labels = self.label_variables[name]
-label_positions = ['[01]'] * num_labels
-for position in positions:
-    label_positions[position] = '1'
-return self.get_isotopomers_by_regex(name, f"{name}__{''.join(label_positions)}") -/
-def shapeOk : Bool := false
-def sep : String := ""
-def alphabet : List Char := []
-def extChar : Char := ' '
-def oneChar : Char := ' '
-def zeroChar : Char := ' '
-def totalSuffix : String := ""
-def positionalArgs : Bool := false
+/-- every mirrored function has one of the modelled statement shapes, no decorator; the dataclass has its three fields -/
+def shapeOk : Bool := true
+/-- `base + sep + bits` in `_generate_binary_labels`, `_assign_compound_labels` and the rate names -/
+def sep : String := "__"
+/-- `it.product(alphabet, repeat=n)`, the same tuple at both sites; iteration order = tuple order -/
+def alphabet : List Char := ['0', '1']
+/-- the character `_get_external_labels` repeats for positions beyond the substrates -/
+def extChar : Char := '1'
+/-- initial-label placement / position queries: requested position, other position -/
+def oneChar : Char := '1'
+def zeroChar : Char := '0'
+def totalSuffix : String := "__total"
+/-- rate arguments are replaced per occurrence (the j-th mention reads the j-th occurrence) rather than by one dict -/
+def positionalArgs : Bool := true
 end Mxl.C05.Gen
